@@ -89,9 +89,10 @@ prop('C09', COMMON +
      'places Moved/Empty/MaybeNonEmpty; L1 no drop of a possibly non-empty comment vector, L2 no discarded '
      'create_comment_reference result, L3 no whole drop of a comment-carrying node) except on paths that report a syntax '
      'error. ID-COMMENT-PAIR: an identifier the printer prints by name only is provably built with the constant empty '
-     'comment reference. TRAVERSAL/SIBLING(T-prc): the printer reads every comment-reference slot. Does not decide '
+     'comment reference. FRESH-REFERENCE: every non-constant CommentReference is the index of a store entry pushed for it '
+     '(unique ownership; entries are rewritten in place). TRAVERSAL/SIBLING(T-prc): the printer reads every comment-reference slot. Does not decide '
      'idempotence of the layout nor that a stored comment is printed in the right place.',
-     [comment_linear.run, printer_rules.run_id_comment_pair, TI.make(['T-prc'])])
+     [comment_linear.run, comment_linear.run_fresh_reference, printer_rules.run_id_comment_pair, TI.make(['T-prc'])])
 
 prop('C11', COMMON +
      'TRAVERSAL/SIBLING(T-gc): the PStr-bearing fields reachable from Module<Arc<Type>> (type walk over the ADT table) '
